@@ -56,11 +56,23 @@ REQUIRED = ["OPM.C15.runlog_producible", "OPM.C15.runlog_producible_iff", "OPM.C
 USER_CMDS = ["Pause", "Unpause", "Hold", "Unhold", "Stop", "Restart", "Start"]
 
 
+def with_flaky(rng, pcode: str, p: float) -> str:
+    """Replace some UOD command lines by commands whose exec function raises (first / third iteration)."""
+    out = []
+    for ln in pcode.split("\n"):
+        w = ln.strip().split(" ")[-1]
+        if w in ("CmdA", "CmdB", "CmdC") and rng.random() < p:
+            ln = ln[:len(ln) - len(w)] + rng.choice(["FlakyA", "FlakyC"])
+        out.append(ln)
+    return "\n".join(out)
+
+
 def gen_case(rng, thorough: bool) -> dict:
     from harness.gen_pcode import gen_program, gen_snippet, gen_edit_script
     malformed = rng.random() < 0.15
     pcode, stats = gen_program(rng, max_lines=rng.choice([6, 10, 14] + ([24] if thorough else [])),
                                max_depth=rng.choice([2, 3]), malformed=malformed)
+    pcode = with_flaky(rng, pcode, 0.2)
     sched = []
     for _ in range(rng.randrange(20, 90 if thorough else 60)):
         ops = []
@@ -74,7 +86,7 @@ def gen_case(rng, thorough: bool) -> dict:
         elif x < 0.40:
             ops.append(["tag", rng.choice(["T0", "T1", "T2"]), rng.randrange(0, 4)])
         elif x < 0.44:
-            ops.append(["inject", gen_snippet(rng)])
+            ops.append(["inject", with_flaky(rng, gen_snippet(rng), 0.3)])
         elif x < 0.48:
             ops.append(["edit", gen_edit_script(rng)])
         sched.append(ops)
@@ -88,7 +100,7 @@ def records_engine_case(case: dict, every: int) -> tuple[list[str], list[str]]:
     from harness.interp_run import apply_edit_script
     lines: list[str] = []
     outs: list[str] = []
-    run = EngineRun(case["pcode"])
+    run = H.flaky_engine_run(case["pcode"])
     try:
         rl = None
         for k, ops in enumerate(case["schedule"]):
@@ -144,7 +156,9 @@ def run(ctx: Check) -> int:
     import harness.runlog_c15 as H
     rng = ctx.rng
     thorough = ctx.tier == "thorough"
-    ctx.rule = ("engine runs: methods from harness.gen_pcode (all features, 15 % malformed) x schedules of 20-60/90 "
+    ctx.rule = ("engine runs: methods from harness.gen_pcode (all features, 15 % malformed; 20 % of the UOD command lines "
+                "and 30 % of those in injected snippets replaced by FlakyA / FlakyC whose exec function raises in its "
+                "first / third iteration => Cancelled (clean-up) then Failed for the same instance) x schedules of 20-60/90 "
                 "ticks with Cancel/Force on run-log item ids (offered / any / already concluded), user commands, tag "
                 "changes, injections, live edits; corpus witnesses first. Non-trivial = the run log reached >= 2 "
                 "concluded items or a Cancel/Force request was accepted. Synthetic: 0-5 records x 0-3 instance ids x "
